@@ -268,6 +268,20 @@ Proof.
   - rewrite <- L1 at 2. rewrite skipn_app, skipn_all, Nat.sub_diag. simpl. rewrite <- L2. apply firstn_all.
   - rewrite <- L1. rewrite firstn_app, firstn_all, Nat.sub_diag. simpl. apply app_nil_r.
 Qed.
+(** the netCDF convention: valid_max / valid_min set as two attributes of the variable's type are what SDgetrange's
+    fall-back returns, maximum first *)
+Lemma range_fallback_roundtrip_lemma : forall l vnt sz cmax cmin mx mn,
+  spec_getrange_fb (put_all l [mkAttr valid_max_name vnt cmax mx; mkAttr valid_min_name vnt cmin mn]) vnt sz
+  = Some (fixed sz mx, fixed sz mn).
+Proof.
+  intros. unfold spec_getrange_fb. rewrite !put_all_cons. simpl put_all.
+  set (a1 := mkAttr valid_max_name vnt cmax mx). set (a2 := mkAttr valid_min_name vnt cmin mn).
+  pose proof (find_set_any_same (set_any l a1) a2) as E2. simpl a_name in E2.
+  assert (find_attr (set_any (set_any l a1) a2) valid_max_name = Some a1) as E1.
+  { rewrite (find_set_any_other _ a2) by names_differ. apply (find_set_any_same l a1). }
+  fold (set_any l a1). fold (set_any (set_any l a1) a2). rewrite E1, E2. simpl. rewrite !Z.eqb_refl. reflexivity.
+Qed.
+
 Lemma fill_roundtrip_lemma : forall l vnt sz v, spec_getfill (spec_setfill l vnt sz v) = Some (fixed sz v).
 Proof.
   intros. unfold spec_getfill, spec_setfill. rewrite put_all_cons. simpl put_all.
@@ -809,4 +823,24 @@ Proof.
   - simpl. rewrite H1, Z.add_0_r, Z.eqb_refl. reflexivity.
   - destruct (g_index a =? i + Z.of_nat (S k)) eqn:E; [apply Z.eqb_eq in E; lia|].
     simpl. rewrite <- (IH (i + 1) k H3). apply find_ext_Z. intro x. f_equal. lia.
+Qed.
+
+(** the fall-back branch of SDgetrange, as the source has it (names and their destinations regenerated), is the
+    specification's fall-back *)
+Lemma attr_at_abs : forall l n, names_ok l -> nul_free n -> option_map abs_m (attr_at (Some l) n) = find_attr (map abs_m l) n.
+Proof.
+  intros l n Hl Hn. unfold attr_at, nc_findattr, find_attr. rewrite nc_findattr_from_findn by assumption.
+  rewrite attr_find_findn. destruct (findn (map abs_m l) n) as [k|]; simpl; [|reflexivity].
+  rewrite attr_get_nat, nth_error_map. reflexivity.
+Qed.
+Lemma getrange_fallback_refines_lemma : forall l vnt sz, names_ok l ->
+  sd_getrange_fb (Some l) vnt sz = spec_getrange_fb (map abs_m l) vnt sz.
+Proof.
+  intros l vnt sz Hl. unfold sd_getrange_fb, spec_getrange_fb.
+  change GETRANGE_MAX_NAME with valid_max_name. change GETRANGE_MIN_NAME with valid_min_name.
+  assert (nul_free valid_max_name) as N1 by (repeat constructor; discriminate).
+  assert (nul_free valid_min_name) as N2 by (repeat constructor; discriminate).
+  pose proof (attr_at_abs l valid_max_name Hl N1) as E1. pose proof (attr_at_abs l valid_min_name Hl N2) as E2.
+  destruct (attr_at (Some l) valid_max_name) as [a1|]; destruct (attr_at (Some l) valid_min_name) as [a2|];
+    simpl in E1, E2; rewrite <- E1; try rewrite <- E2; reflexivity.
 Qed.
